@@ -21,6 +21,8 @@ def concProg (idx : Nat) (tok : String) : Option (List Act) :=
       else if mode == "z" then some (news ++ progToMesg 1 vals ++ progToMesg 1 [s % 7])
       else none
   | ["lis", _ft, s, _n] => s.toNat?.map fun s => progNew [s % 251] ++ progNew [s % 13] ++ progToMesgNil [s % 251] ++ progToMesgNil [s % 13]
+  | ["lisc", _ft, s, _n, _c] => s.toNat?.map fun s =>                      -- as lis; the customised file-set map is the op's own copy
+      progNew [s % 251] ++ progNew [s % 13] ++ progToMesgNil [s % 251] ++ progToMesgNil [s % 13]
   | ["fac", k] => k.toNat?.map fun k => progCreateMesg k ++ [.loc k]
   | ["open", _] => some [.loc 0]                                           -- own pool of decoders, own workers
   | _ => none
